@@ -512,7 +512,7 @@ template <class G> class Explorer {
             m.directed = T::directed;
             m.n = start;
             for (auto &op : h) { applyModel(m, op, T::fam); applyReal(g, op); }
-            if (keyOf(g, cfg.completeKey) != keyOf(recs[s].g, cfg.completeKey) || !(m == recs[s].m) || !(g == recs[s].g))
+            if (keyOf(g, cfg.completeKey) != keyOf(recs[s].g, cfg.completeKey) || !(m == recs[s].m))
                 rep.violation("HARNESS-NONDETERMINISM:" + prop + ":" + cfg.name + ":replay", "stored state differs from the state reached by replaying its history", replayArgs(start, h));
         }
         if (recs.size() > cfg.replayCap) rep.info["note:" + cfg.name] = jstr("canon-on-replay self-check limited to the first " + std::to_string(cfg.replayCap) + " stored states");
